@@ -117,7 +117,7 @@ OnHead(s, e, ln) ==
 OnPoll(s, e, ln) ==
   IF ~s.hasB THEN s
   ELSE
-  LET p == [lo |-> e.lo, up |-> e.up, eos |-> e.eos, res |-> e.res, n |-> e.n, env |-> e.env]
+  LET p == [lo |-> e.lo, up |-> e.up, eos |-> e.eos, res |-> e.res, n |-> e.n, env |-> e.env, nexts |-> e.nexts]
       before == s.bs.bad
       bs2 == Observe(s.bs, p, s.isGet)
       new == bs2.bad \ before
